@@ -23,12 +23,20 @@ def _case(args):
         before = H.snapshot(b.system)
         prev_tot = {k: H.view(v) for k, v in b.system.total_energy_footprint_sum_over_period.items()}
         spec2 = copy.deepcopy(spec)
+        out["shared"] = H.has_shared_job(spec)
+        out["jobless"] = any(not any(spec["steps"][st]["jobs"] for st in j["steps"]) for j in spec["journeys"].values())
         try:
-            for e in edits:
+            if kind == "grouped":
+                for e in edits: e.spec(spec2)
+                out["shared"] = out["shared"] or H.has_shared_job(spec2)
+                H.ModelingUpdate([e.change(b) for e in edits])
+            for e in (edits if kind != "grouped" else []):
                 prev_tot = {k: H.view(v) for k, v in b.system.total_energy_footprint_sum_over_period.items()}
-                e.live(b); e.spec(spec2)
+                e.spec(spec2); out["shared"] = out["shared"] or H.has_shared_job(spec2); e.live(b)
         except Exception as ex:
             out["status"] = "edit-raised"; out["error"] = f"{type(ex).__name__}: {str(ex)[:200]}"
+            if H.is_float_cancellation_rejection(ex):
+                out["status"] = "D3-float-cancellation"; return out
             # an edit refused / failing on the live system must also fail when building from scratch
             try:
                 H.build(spec2); out["status"] = "edit-raised-but-fresh-build-succeeds"
@@ -38,6 +46,8 @@ def _case(args):
         try:
             fresh = H.build(spec2)
         except Exception as ex:
+            if H.is_float_cancellation_rejection(ex):
+                out["status"] = "D3-float-cancellation"; return out
             out["status"] = "fresh-build-raises-but-edit-accepted"; out["error"] = f"{type(ex).__name__}: {str(ex)[:200]}"
             return out
         live = H.snapshot(b.system); ref = H.snapshot(fresh.system)
@@ -46,7 +56,7 @@ def _case(args):
             out["status"] = "stale"; out["diff"] = [f"{o}.{a}" for o, a in d]
         # bookkeeping: previous totals = totals just before the last edit
         pt = {k: H.view(v) for k, v in b.system.previous_total_energy_footprints_sum_over_period.items()}
-        if set(pt) == set(prev_tot) and not all(H.view_equal(pt[k], prev_tot[k]) for k in pt):
+        if kind == "single" and spec2 != spec and set(pt) == set(prev_tot) and not all(H.view_equal(pt[k], prev_tot[k]) for k in pt):
             out["status"] = "previous-totals-wrong" if out["status"] == "ok" else out["status"]
         if kind == "undo" and out["status"] == "ok":
             pass
@@ -56,37 +66,57 @@ def _case(args):
 
 
 def signature(r):
-    return f"C01|{r['topology']}|{' ; '.join(r['edits'] or [])}|{r['status']}|{','.join(sorted(r['diff']))}"
-
-
-def cases(tier, seed):
-    rnd = random.Random(seed)
-    T = H.topologies()
-    items = []
-    for tname, spec in T.items():
-        n = len(H.numeric_edits(spec) + H.link_edits(spec))
-        for i in range(n): items.append((tname, spec, (i,), "single"))
-        pairs = [(i, j) for i in range(n) for j in range(n) if i != j]
-        k = 60 if tier == "quick" else (len(pairs) if tname in ("single", "journey_shared_by_two_ups") else 600)
-        for p in rnd.sample(pairs, min(k, len(pairs))): items.append((tname, spec, p, "pair"))
-    return items
+    return f"C01|{r['topology']}|{r['kind']}|{' ; '.join(r['edits'] or [])}|{r['status']}|{','.join(sorted(r['diff']))}"
 
 
 def run(tier, seed, procs=16):
-    items = cases(tier, seed)
-    res = H.run_parallel(_case, items, procs)
-    viol, samples, nontrivial = [], [], set()
+    rnd = random.Random(seed)
+    T = H.topologies()
+    singles = []
+    for tname, spec in T.items():
+        n = len(H.numeric_edits(spec) + H.link_edits(spec))
+        singles += [(tname, spec, (i,), "single") for i in range(n)]
+    res = H.run_parallel(_case, singles, procs)
+    bad = {(r["topology"], i[2][0]) for r, i in zip(res, singles) if r["status"] not in ("ok", "both-raise")}
+    pairs, skipped = [], 0
+    for tname, spec in T.items():
+        n = len(H.numeric_edits(spec) + H.link_edits(spec))
+        allp = [(i, j) for i in range(n) for j in range(n) if i != j]
+        k = 80 if tier == "quick" else (len(allp) if tname in ("single", "journey_shared_by_two_ups") else 800)
+        eds = H.numeric_edits(spec) + H.link_edits(spec)
+        for p in rnd.sample(allp, min(k, len(allp))):
+            if (tname, p[0]) in bad or (tname, p[1]) in bad: skipped += 1; continue
+            if not H.has_shared_job(spec):
+                s1 = copy.deepcopy(spec)
+                try: eds[p[0]].spec(s1)
+                except Exception: pass
+                if H.has_shared_job(s1): skipped += 1; continue     # first edit creates the D1 configuration
+            pairs.append((tname, spec, p, "pair"))
+            if eds[p[0]].change and eds[p[1]].change and eds[p[0]].name.split("=")[0].split("->")[0] != eds[p[1]].name.split("=")[0].split("->")[0]:
+                pairs.append((tname, spec, p, "grouped"))
+    res += H.run_parallel(_case, pairs, procs)
+    viol, samples, nontrivial, d3 = [], [], set(), 0
     for r in res:
         if r["status"] == "harness-error":
             raise RuntimeError("bounded harness error: " + r.get("error", ""))
+        if r["status"] == "D3-float-cancellation":
+            d3 += 1
+            viol.append({"signature": "D3", "what": f"deletion-free model rejected: {r.get('error', '')[:160]}", "input": {"topology": r["topology"], "edits": r["edits"]}})
+            continue
         if r["status"] in ("ok", "both-raise"):
-            nontrivial.add((r["topology"], tuple(r["edits"] or [])))
+            nontrivial.add((r["topology"], r["kind"], tuple(r["edits"] or [])))
             if len(samples) < 3: samples.append({"topology": r["topology"], "edits": r["edits"], "result": r["status"]})
             continue
-        viol.append({"signature": signature(r), "what": f"C01 on topology '{r['topology']}' after edits {r['edits']}: {r['status']} "
+        sig = signature(r)
+        # known root causes are recognised by CONFIGURATION (robust to sampling seeds and iteration order), everything else by scenario
+        netonly = all((x.startswith("net") and x.endswith(".energy_footprint")) or x == "system.total_footprint" for x in r["diff"])
+        if r.get("shared") and r["status"] in ("stale", "edit-raised-but-fresh-build-succeeds"): sig = "D1"
+        elif r.get("jobless") and r["status"] == "stale" and netonly: sig = "D12"
+        viol.append({"signature": sig, "what": f"C01 on topology '{r['topology']}' after edits {r['edits']}: {r['status']} "
                      f"{r['diff'][:8]} {r.get('error', '')}", "input": {"topology": r["topology"], "edits": r["edits"]}})
     return {"evaluations": len(res), "distinct_nontrivial": len(nontrivial),
             "rule": "one case = (topology, sequence of 1 or 2 edits); live system after the edits vs a system built from the edited spec; "
-                    "every calculated attribute compared hour by hour on physical values (rel 1e-9); non-trivial = the edit was accepted and changes at least the spec",
-            "samples": samples, "violations": viol, "exhaustive": False,
-            "bound": f"{len(H.topologies())} topologies, all single edits, {'sampled' if tier == 'quick' else 'all/sampled'} ordered pairs, seed {seed}"}
+                    "every calculated attribute compared hour by hour on physical values (rel 1e-9); non-trivial = the edits were accepted (or refused both ways); "
+                    "pairs containing a single edit that already fails alone are skipped (the single is reported)",
+            "samples": samples, "violations": viol, "exhaustive": False, "pairs_skipped_because_a_member_fails_alone": skipped,
+            "bound": f"{len(T)} topologies, all {len(singles)} single edits, {'sampled' if tier == 'quick' else 'all/sampled'} ordered pairs ({len(pairs)} run), seed {seed}"}
